@@ -94,7 +94,9 @@ def run(ck, rng, tier):
     # ---------------- out-of-sample predictions through the public API
     # every run covers each scheme with the multi-response / multi-component PLS layout (where the
     # residual columns are LV-major) and with MLR and LDA; the rest is random
-    FORCED = [(0, "loo", 2, 2), (0, "kfold", 3, 2), (0, "boot", 2, 2), (4, "kfold", 2, 0), (4, "boot", 3, 0), (5, "boot", 1, 0)]
+    # ... more responses than variables (1 variable, 3 responses) and responses in units of 1e-6
+    FORCED = [(0, "loo", 2, 2), (0, "kfold", 3, 2), (0, "boot", 2, 2), (4, "kfold", 2, 0), (4, "boot", 3, 0), (5, "boot", 1, 0),
+              (4, "kfold", 3, 0, 1, 1.0), (4, "boot", 3, 0, 1, 1.0), (4, "loo", 2, 0, 2, 1e-6), (0, "loo", 2, 1, 2, 1e-6)]
     N = (10 if not thorough else 80) + len(FORCED)
     for c in range(N):
         algo = rng.choice((0, 4, 4, 5))
@@ -103,10 +105,16 @@ def run(ck, rng, tier):
         ny = 1 if algo == 5 else rng.randint(1, 3)
         nlv = rng.randint(1, m) if algo == 0 else 0
         scheme = rng.choice(("loo", "kfold", "boot")) if algo != 5 else rng.choice(("loo", "boot"))
+        yunit = 1.0
         if c < len(FORCED):
-            algo, scheme, ny, nlv = FORCED[c]
+            algo, scheme, ny, nlv = FORCED[c][:4]
             m = max(m, nlv, 2)
+            if len(FORCED[c]) > 4:
+                m, yunit = FORCED[c][4], FORCED[c][5]
         X, Y = gen_data(rng, n, m, ny, algo)
+        if yunit != 1.0:
+            Y = Y * yunit
+            ck.count("responses in units of %g" % yunit)
         nth = rng.choice((1, 2, 3, 4, 8))
         ck.count("%s %s" % (scheme, ALGOS[algo]))
         head = "%d %d %s %s" % (algo, nlv, vf.fmt_mat(X.tolist(), m), vf.fmt_mat(Y.tolist(), ny))
@@ -115,7 +123,7 @@ def run(ck, rng, tier):
         if algo == 5:
             Y2[a, 0] = float((int(Y[a, 0]) + 1) % (int(Y.max()) + 1))
         else:
-            Y2[a, :] += 7.5
+            Y2[a, :] += 7.5 * yunit
         head2 = "%d %d %s %s" % (algo, nlv, vf.fmt_mat(X.tolist(), m), vf.fmt_mat(Y2.tolist(), ny))
         if scheme == "loo":
             cmd, cmd2 = "loo %s %d" % (head, nth), "loo %s %d" % (head2, nth)
@@ -149,7 +157,7 @@ def run(ck, rng, tier):
         if algo != 5:
             nycols = Y.shape[1]
             want = P - Y[:, [j % nycols for j in range(P.shape[1])]]
-            if R.shape != P.shape or np.abs(R - want).max() > 1e-9 * max(1.0, np.abs(Y).max()):
+            if R.shape != P.shape or np.abs(R - want).max() > 1e-9 * max(np.abs(Y).max(), np.abs(P).max(), 1e-300):
                 ck.fail(site, "residual_columns_" + ALGOS[algo], "reported residuals are not prediction minus the matching response column", {"cmd": cmd})
         # equals the refit on exactly the other folds
         if folds is not None:
@@ -166,7 +174,7 @@ def run(ck, rng, tier):
                     continue
                 pr = np.array(o3[k]["pred"]) if k < len(o3) else None
                 k += 1
-                if pr is None or pr.shape != P[f].shape or np.abs(pr - P[f]).max() > 1e-9 * max(1.0, np.abs(P).max()):
+                if pr is None or pr.shape != P[f].shape or np.abs(pr - P[f]).max() > 1e-9 * max(np.abs(P).max(), 1e-300):
                     ck.fail(site, "not_refit_" + ALGOS[algo], "the value predicted for objects %s is not the prediction of a model refitted on the other objects" % f[:4], {"cmd": cmd, "fold": f})
                     break
         else:
@@ -200,7 +208,7 @@ def run(ck, rng, tier):
                     ck.fail(site, "object_never_predicted", "some object is in no test group", {"cmd": cmd})
                 else:
                     want = acc / cnt[:, None]
-                    if np.abs(want - P).max() > 1e-9 * max(1.0, np.abs(P).max()):
+                    if np.abs(want - P).max() > 1e-9 * max(np.abs(P).max(), 1e-300):
                         ck.fail(site, "not_refit_" + ALGOS[algo], "bootstrap predictions are not the average of the out-of-fold refits (max diff %.3g)" % np.abs(want - P).max(), {"cmd": cmd})
     failing, logs, cerr = vf.run_cases_v("c05", IMPORTS, DEFS, checks.items, shard=8, timeout=1200)
     if cerr:
